@@ -1004,3 +1004,49 @@ r5_weak_inst!(r5_weak_nested_rel, 1, 0, false);
 r5_weak_inst!(r5_weak_rel_nested, 0, 1, false);
 r5_weak_inst!(r5_weak_root_root, 2, 2, false);
 r5_weak_inst!(r5_weak_nested_nested, 1, 1, false);
+
+// ---------------------------------------------------------------------------------------------
+// R5 (GC and Skip blocks): `Block::encode`, `Block::encode_with_offset` and `BlockSlice::encode`
+// make the calls `Update::decode_block` reads back: info byte, then the length through
+// `write_len` for GC (read with `read_len`) and through `write_var` for Skip (read with
+// `read_var`) — the two differ in v2 (len column vs. rest buffer).
+// ---------------------------------------------------------------------------------------------
+#[kani::proof]
+#[kani::unwind(14)]
+#[kani::stub(std::hash::RandomState::new, random_state_new)]
+#[kani::stub(std::intrinsics::catch_unwind, catch_unwind_stub)]
+fn r5_gc_skip_encode() {
+    let id = any_id();
+    let len: u32 = kani::any();
+    let offset: u32 = kani::any();
+    let trim_end: u32 = kani::any();
+    kani::assume(len >= 1 && offset < len && trim_end <= len - offset && id.clock <= u32::MAX - len);
+    let skip: bool = kani::any();
+    let b = if skip { hook::BlockBox::skip(id, len) } else { hook::BlockBox::gc(id, len) };
+    let info: u8 = if skip { 10 } else { 0 };
+    // <Block as Encode>::encode
+    let mut real = Recorder::new();
+    b.encode(&mut real);
+    let mut model = Recorder::new();
+    model.write_info(info);
+    if skip { model.write_var(len) } else { model.write_len(len) }
+    assert_same_events(&real, &model);
+    // Block::encode_with_offset
+    let mut real = Recorder::new();
+    b.encode_with_offset(&mut real, offset);
+    let mut model = Recorder::new();
+    model.write_info(info);
+    if skip { model.write_var(len - offset) } else { model.write_len(len - offset) }
+    assert_same_events(&real, &model);
+    // Block::as_slice + trim + BlockSlice::encode
+    let mut real = Recorder::new();
+    b.encode_slice(offset, trim_end, &mut real);
+    let mut model = Recorder::new();
+    model.write_info(info);
+    if skip { model.write_var(len - offset - trim_end) } else { model.write_len(len - offset - trim_end) }
+    assert_same_events(&real, &model);
+    kani::cover!(skip && offset > 0, "skip with offset");
+    kani::cover!(!skip && trim_end > 0, "gc trimmed at the end");
+    kani::cover!(true, "reach");
+    std::mem::forget(b);
+}
